@@ -306,3 +306,93 @@ func flowSaveIntegration(w *World) []*Obligation {
 func init() {
 	flowChecks["C15"] = append(flowChecks["C15"], flowSaveIntegration)
 }
+
+// C19: every request handler of web.Handler that is registered on the mux in
+// cmd/shovel is wrapped in Authn, except the methods the contract file lists
+// as public (`//@ public Handler Index,Diag,Prom,Login props=C19`). A handler
+// method is any method of *web.Handler with the signature
+// (http.ResponseWriter, *http.Request).
+func flowRoutes(w *World) []*Obligation {
+	public := map[string]bool{}
+	declared := false
+	for _, cf := range w.files {
+		for _, g := range cf.Guards {
+			if g.Kind == "public" && g.Type == "Handler" && hasProp(g.Props, "C19") {
+				declared = true
+				for _, m := range g.Fields {
+					public[m] = true
+				}
+			}
+		}
+	}
+	if !declared {
+		return []*Obligation{flowObl("C19", "cmd/shovel.main:routes:public-list", "the contract file of package web lists the public handlers", false, "no `public Handler ...` clause")}
+	}
+	sp := w.spkgs[repoMod+"/cmd/shovel"]
+	if sp == nil {
+		return []*Obligation{flowObl("C19", "cmd/shovel.main:routes:loaded", "package cmd/shovel loaded", false, "not loaded")}
+	}
+	var obls []*Obligation
+	nreg := 0
+	for _, fn := range allFuncs(sp) {
+		for _, b := range fn.Blocks {
+			for _, ins := range b.Instrs {
+				mc, ok := ins.(*ssa.MakeClosure)
+				if !ok {
+					continue
+				}
+				f := mc.Fn.(*ssa.Function)
+				// bound method value of *web.Handler: "(*...web.Handler).M$bound"
+				if !strings.HasSuffix(f.Name(), "$bound") || !strings.Contains(f.String(), "shovel/web.Handler).") {
+					continue
+				}
+				m := strings.TrimSuffix(f.Name(), "$bound")
+				sig := f.Signature
+				if sig.Params().Len() != 2 || !strings.HasSuffix(sig.Params().At(0).Type().String(), "http.ResponseWriter") {
+					continue // not a request handler (Authn itself, PushUpdates, ...)
+				}
+				nreg++
+				wrapped := true
+				detail := ""
+				var follow func(v ssa.Value) bool
+				follow = func(v ssa.Value) bool {
+					refs := v.Referrers()
+					if refs == nil {
+						return false
+					}
+					okAll := len(*refs) > 0
+					for _, r := range *refs {
+						switch u := r.(type) {
+						case *ssa.ChangeType:
+							okAll = follow(u) && okAll
+						case *ssa.MakeInterface:
+							okAll = follow(u) && okAll
+						case *ssa.DebugRef:
+						case ssa.CallInstruction:
+							if strings.HasSuffix(calleeName(u.Common()), "web.Handler).Authn") {
+								continue
+							}
+							okAll = false
+							detail += fmt.Sprintf("%s is passed to %s without the Authn wrapper\n", m, calleeName(u.Common()))
+						default:
+							okAll = false
+							detail += fmt.Sprintf("%s flows into %T\n", m, r)
+						}
+					}
+					return okAll
+				}
+				if !public[m] {
+					wrapped = follow(mc)
+					obls = append(obls, flowObl("C19", fmt.Sprintf("cmd/shovel.%s:routes:wrapped[%s]", fn.Name(), m),
+						"handler "+m+" is only ever registered behind Authn", wrapped, detail))
+				}
+			}
+		}
+	}
+	obls = append(obls, flowObl("C19", "cmd/shovel.main:routes:found", fmt.Sprintf("%d handler registrations of web.Handler found", nreg), nreg > 0, "no handler registration found"))
+	return obls
+}
+
+func init() {
+	flowChecks["C19"] = append(flowChecks["C19"], flowRoutes)
+}
